@@ -49,7 +49,8 @@ SCRATCH = os.environ.get('E4_SCRATCH', '/tmp')
 T_SYNC = float(os.environ.get('E4_TIMEOUT', '5'))
 FILLER = b'*5dab3d17d4ba29;\n'
 GAP_1090_S = 0.25
-HB_STALE = 3   # heartbeats that guarantee "handled and drawn" after a write (see DESIGN 2.4 + pipe staleness)
+HB_FRESH = 2   # heartbeats *emitted after* an injection that guarantee "handled and drawn" (1 draw may be in progress)
+HB_PAT = b'\x1b[?25l'
 
 MOUSE_MODES = (1000, 1002, 1003, 1005, 1006, 1015)
 
@@ -125,20 +126,57 @@ class Radar:
         self.termios_before = None
         self.termios_after = None
         self.conn_broken = False
-        self.stale_extra = 0     # extra heartbeats owed because the driver was slow between drain and injection
+        self.stale_extra = 0     # fallback only (no /proc/<pid>/io): extra heartbeats owed for driver slowness
         self._t_inject = None
+        self.mark = None         # byte offset of the subject's output stream at the last injection
+        self.stream_off = 0      # bytes read from the pty so far
+        self._scan_tail = b''
+        self.hb_off = []         # exact stream offsets (end) of every heartbeat sequence read so far
 
-    # -- injection bookkeeping --------------------------------------------------------------
-    # A main-loop iteration of radar lasts >= 10 ms (its event poll has to time out once), so while the driver
-    # spends dt between emptying the pty and finishing an injection at most 1 + dt/10ms heartbeats can have been
-    # emitted that predate the injection.  wait_hb() adds that many to the count it waits for.
+    # -- causal heartbeat accounting ----------------------------------------------------------
+    # A heartbeat read from the pty may have been written by the subject *before* an injection (bytes still in the
+    # kernel's pty queue, or the driver was slow).  /proc/<pid>/io:wchar is the number of bytes the subject has
+    # written so far; read right after an injection it bounds the stream offset of everything emitted before it.
+    # Heartbeats whose offset is larger were emitted after the injection ("fresh").  wchar also counts bytes written
+    # elsewhere (log file): that only makes the bound larger, i.e. the wait longer - never unsound.
+    def wchar(self):
+        # bytes written to the log file are subtracted; the log size is read *first* so the result can only be too
+        # large (conservative), never too small
+        logged = 0
+        try:
+            with os.scandir(os.path.join(self.tmp, 'logs')) as it:
+                for e in it:
+                    logged += e.stat().st_size
+        except OSError:
+            logged = 0
+        try:
+            with open('/proc/%d/io' % self.proc.pid) as f:
+                for ln in f:
+                    if ln.startswith('wchar:'):
+                        return int(ln.split()[1]) - logged
+        except (OSError, ValueError):
+            pass
+        return None
+
     def _begin_inject(self):
         self._t_inject = time.monotonic()
         self.drain()
 
     def _end_inject(self):
-        dt = time.monotonic() - self._t_inject
-        self.stale_extra = max(self.stale_extra, int(dt / 0.010))
+        self.mark = self.wchar()
+        if self.mark is None:
+            dt = time.monotonic() - self._t_inject
+            self.stale_extra = max(self.stale_extra, 2 + int(dt / 0.010))
+
+    def _scan_heartbeats(self, data):
+        buf = self._scan_tail + data
+        base = self.stream_off - len(self._scan_tail)
+        i = buf.find(HB_PAT)
+        while i >= 0:
+            self.hb_off.append(base + i + len(HB_PAT))
+            i = buf.find(HB_PAT, i + 1)
+        self.stream_off += len(data)
+        self._scan_tail = buf[-(len(HB_PAT) - 1):]
 
     # -- lifecycle --------------------------------------------------------------------------
     def start(self):
@@ -208,9 +246,10 @@ class Radar:
         if data:
             if len(self.raw) < (1 << 22):
                 self.raw += data
-            hb0 = self.scr.hb
+            hb0 = len(self.hb_off)
+            self._scan_heartbeats(data)
             self.scr.feed(data)
-            new = self.scr.hb - hb0
+            new = len(self.hb_off) - hb0
             if new and self.filler_on:
                 for _ in range(new):
                     self._send_filler()
@@ -232,12 +271,27 @@ class Radar:
                 break
 
     def wait_hb(self, n, timeout=None):
-        """-> 'ok' | 'exited' | 'timeout'"""
+        """wait for n heartbeats emitted after the last injection (or after now, if none is pending)
+        -> 'ok' | 'exited' | 'timeout'"""
         timeout = T_SYNC if timeout is None else timeout
-        target = self.scr.hb + n + self.stale_extra
-        self.stale_extra = 0
+        mark = self.mark if self.mark is not None else self.wchar()
+        self.mark = None
+        if mark is None:       # fallback: plain counting with a safety margin
+            target = len(self.hb_off) + n + 1 + self.stale_extra
+            self.stale_extra = 0
+
+            def done():
+                return len(self.hb_off) >= target
+        else:
+            def done():
+                c = 0
+                for o in reversed(self.hb_off):
+                    if o <= mark:
+                        break
+                    c += 1
+                return c >= n
         end = time.monotonic() + timeout
-        while self.scr.hb < target:
+        while not done():
             if self.exited():
                 self.drain()
                 return 'exited'
@@ -407,10 +461,10 @@ def run_radar(script):
             if op == 'keys':
                 rd.keys(bytes.fromhex(st['hex']))
             elif op == 'sync':
-                w = rd.wait_hb(st.get('n', HB_STALE))
+                w = rd.wait_hb(max(HB_FRESH, st.get('n', HB_FRESH)))
                 if w == 'timeout':
                     obs['frozen_at'] = i
-                    obs['notes'].append('timeout@%d op=%s hb=%d t=%.2f' % (i, op, rd.scr.hb, time.monotonic() - t0))
+                    obs['notes'].append('timeout@%d op=%s hb=%d t=%.2f' % (i, op, len(rd.hb_off), time.monotonic() - t0))
                     break
                 if w == 'exited':
                     obs['died_at'] = i
@@ -419,20 +473,20 @@ def run_radar(script):
                 rd.inject_send(bytes.fromhex(st['hex']))
             elif op == 'gap':
                 rd.set_filler(False)
-                w = rd.wait_hb(st.get('n', HB_STALE))
+                w = rd.wait_hb(max(HB_FRESH, st.get('n', HB_FRESH)))
                 if w == 'timeout':
                     obs['frozen_at'] = i
-                    obs['notes'].append('timeout@%d op=%s hb=%d t=%.2f' % (i, op, rd.scr.hb, time.monotonic() - t0))
+                    obs['notes'].append('timeout@%d op=%s hb=%d t=%.2f' % (i, op, len(rd.hb_off), time.monotonic() - t0))
                     break
                 if w == 'exited':
                     obs['died_at'] = i
                     break
             elif op == 'lines':
                 rd.inject_send(bytes.fromhex(st['hex']))
-                w = rd.wait_hb(st['n'] + HB_STALE + 2)
+                w = rd.wait_hb(st['n'] + 3)    # <= 2 pacing lines queued ahead + 1 draw in progress
                 if w == 'timeout':
                     obs['frozen_at'] = i
-                    obs['notes'].append('timeout@%d op=%s hb=%d t=%.2f' % (i, op, rd.scr.hb, time.monotonic() - t0))
+                    obs['notes'].append('timeout@%d op=%s hb=%d t=%.2f' % (i, op, len(rd.hb_off), time.monotonic() - t0))
                     break
                 if w == 'exited':
                     obs['died_at'] = i
@@ -450,10 +504,10 @@ def run_radar(script):
                         bad = w
                         break
                 if bad is None:
-                    bad = rd.wait_hb(HB_STALE)
+                    bad = rd.wait_hb(HB_FRESH)
                 if bad == 'timeout':
                     obs['frozen_at'] = i
-                    obs['notes'].append('timeout@%d op=%s hb=%d t=%.2f' % (i, op, rd.scr.hb, time.monotonic() - t0))
+                    obs['notes'].append('timeout@%d op=%s hb=%d t=%.2f' % (i, op, len(rd.hb_off), time.monotonic() - t0))
                     break
                 if bad == 'exited':
                     obs['died_at'] = i
@@ -482,7 +536,7 @@ def run_radar(script):
                     obs['notes'].append('no-exit-after-quit')
             elif op == 'wait_exit_or_hb':
                 end = time.monotonic() + T_SYNC
-                while not rd.exited() and rd.scr.hb < 2:
+                while not rd.exited() and len(rd.hb_off) < 2:
                     if time.monotonic() > end:
                         raise Machinery('subject neither exited nor drew within %.0f s' % T_SYNC)
                     rd.pump(0.05)
@@ -495,7 +549,7 @@ def run_radar(script):
         else:
             if rd.exited() and not obs['quit_sent'] and not any(s['op'] == 'wait_exit' for s in steps):
                 obs['died_at'] = len(steps)
-        obs['hb_total'] = rd.scr.hb
+        obs['hb_total'] = len(rd.hb_off)
         obs['killed'] = rd.finish()
         obs['exit_code'] = rd.exit_code if not obs['killed'] else None
         raw = bytes(rd.raw)
